@@ -38,6 +38,10 @@ type Step struct {
 	K     string `json:"k,omitempty"`
 	ID    int    `json:"id,omitempty"` // model id: request*100 + chunk (+50 for writes)
 	E     string `json:"e,omitempty"`
+	// driver-level scenarios
+	Host int   `json:"host,omitempty"`
+	Vs   []int `json:"vs,omitempty"`
+	Acc  []int `json:"acc,omitempty"`
 }
 
 // Scenario is a configuration plus environment steps.
@@ -723,6 +727,7 @@ func main() {
 	nreal := flag.Int("real", 0, "number of free-running runs on akita's SerialEngine, DirectConnection and ideal memory controllers")
 	drvGPUs := flag.Int("drvgpus", 2, "GPUs in driver-level runs")
 	drvLog2 := flag.Uint64("drvlog2", 12, "log2 page size in driver-level runs")
+	drvScen := flag.String("drvscen", "", "driver-level scenario file (JSON list of {steps}) exported from MigrationScen behaviours")
 	drvKind := flag.String("drvkind", "normal", "normal: environment keeps clear of the known driver defects; known: scenarios exhibiting them; wild: no restriction")
 	flag.Parse()
 
@@ -805,7 +810,12 @@ func main() {
 	stats["traces"] = traces
 	stats["events"] = rec.Seq
 
-	if *drv > 0 {
+	if *drvScen != "" {
+		ds := runDriverScenarios(*drvScen, *drvOut)
+		for k, v := range ds {
+			stats["drv_"+k] = v
+		}
+	} else if *drv > 0 {
 		ds := runDriverLevel(*drvOut, *sysPMCOut, *drv, *seed, *sys, *drvGPUs, *drvLog2, *drvKind)
 		for k, v := range ds {
 			stats["drv_"+k] = v
